@@ -4,7 +4,7 @@ from __future__ import annotations
 import numpy as np
 from hypothesis import strategies as st
 
-from .. import gen, oracle, sitesys
+from .. import cases, gen, oracle, sitesys
 from ..runner import Raised, Sub, Violation, gcall
 
 PROPERTY = 'C02'
@@ -41,6 +41,8 @@ def run(case):
     want_in, _ = sitesys.expected_states(case, fraction=f)
     traj = sitesys.full_trajectory(case)
     diff = traj.filter('Li')
+    cases.prelude(diff, case.get('prelude'))
+    cases.prelude(traj, case.get('prelude'))
     st_ = sitesys.sites(case)
     rad = case['radius'] if isinstance(case['radius'], dict) else {'': float(case['radius'])}
     rad0 = dict(rad)
